@@ -2,7 +2,7 @@
  * @props C20
  * @tier quick
  * @functions ZSTD_seekable_decompress ZSTD_seekable_offsetToFrameIndex ZSTD_seekTable_offsetToFrameIndex
- * @bounds archive of NF (= 2) frames, each with 1..3 content bytes (content arbitrary) and 1..2 compressed bytes; quick (step): ONE range read (offset, length) from an ARBITRARY cached reader state (any current frame, any position inside it, any amount of buffered input) satisfying the reader/decoder invariant = inductive step over read histories; thorough (two_reads): two consecutive reads from a freshly initialised reader; no checksums
+ * @bounds archive of NF (= 2) frames, each with 1..3 content bytes (content arbitrary) and 1..2 compressed bytes (step_small, quick: 1..2 and 1); quick (step): ONE range read (offset, length) from an ARBITRARY cached reader state (any current frame, any position inside it, any amount of buffered input) satisfying the reader/decoder invariant = inductive step over read histories; thorough (two_reads): two consecutive reads from a freshly initialised reader; no checksums
  * @assume the zstd decoder behind the reader is a CONTRACT MODEL (ZSTD_decompressStream / ZSTD_DCtx_reset stubs): it knows which frame it is in from the file position at the last reset, consumes any non-empty part of the offered input and/or regenerates any non-empty part of the frame's content that fits the output (always progressing unless it needs input that was not offered), returns 0 exactly at the end of the frame and otherwise a hint within the frame; file access is a position-tracking stub (custom-file interface) that never fails; scratch copy of the reader with SEEKABLE_BUFF_SIZE = 64 instead of 128 KiB
  * @outside real zstd frames inside the archive; checksummed archives (per-frame digest compare: c20.load_untrusted / thorough); more than 2 frames
  * @prep sed contrib/seekable_format/zstdseek_decompress.c zseek_small.c define\s+SEEKABLE_BUFF_SIZE\s+ZSTD_BLOCKSIZE_MAX define\x20SEEKABLE_BUFF_SIZE\x2064
@@ -11,7 +11,8 @@
  * @cbmc --unwind 8 --unwindset __builtin_memcpy.0:8,ZSTD_seekable_decompress.0:9,ZSTD_seekable_decompress.1:4
  * @timeout 600
  * @memgb 8
- * @instance step -DH_STEP
+ * @instance step_small backend=cadical cbmc="--unwindset ZSTD_seekable_decompress.0:7,ZSTD_seekable_decompress.1:4" -DH_STEP -DDMAXF=2 -DCMAXF=1
+ * @instance step tier=thorough timeout=1500 -DH_STEP
  * @instance two_reads tier=thorough timeout=2400 memgb=14
  */
 #include "v.h"
@@ -19,8 +20,12 @@
 #include "zseek_small.c"
 
 #define NF 2
+#ifndef DMAXF
 #define DMAXF 3
+#endif
+#ifndef CMAXF
 #define CMAXF 2
+#endif
 static unsigned g_d[NF], g_c[NF];                    /* frame sizes */
 static unsigned char g_content[NF * DMAXF];
 static unsigned long long g_fpos;                    /* file position (custom file stub) */
